@@ -45,6 +45,7 @@ namespace pika::detail {
             std::hash<pika::threads::detail::thread_id_type>()(
                 pika::threads::detail::get_self_id()) :
             std::hash<std::thread::id>()(std::this_thread::get_id()) % ((expected + 1) >> 1);
+        PIKA_VERIF_POST("bar.start", this, current, expected);
         for (int round = 0;; ++round)
         {
             if (current_expected <= 1) { return true; }
@@ -65,16 +66,19 @@ namespace pika::detail {
                 else if (state[current].tickets[round].phase.compare_exchange_strong(
                              expect, half_step, std::memory_order_acq_rel))
                 {
+                    PIKA_VERIF_POST("bar.half", this, current, round);
                     return false;    // I'm 1 in 2, done with arrival
                 }
                 else if (expect == half_step)
                 {
+                    PIKA_VERIF_POST("bar.seen", this, current, round);
                     PIKA_VERIF_POINT("bar.try2", this, current, round);
                     if (state[current].tickets[round].phase.compare_exchange_strong(
                             expect, full_step, std::memory_order_acq_rel))
                         break;    // I'm 2 in 2, go to next round
                 }
 
+                PIKA_VERIF_POST("bar.miss", this, current, expect);
                 ++current;
             }
 
